@@ -85,6 +85,180 @@ Theorem C16_route_glue_calls_present : forall a b, In (a, b) must_call -> In b (
 Proof. exact (check_all_must_call classes funcs reset_fields_ok). Qed.
 Print Assumptions C16_route_glue_calls_present.
 
+(* ------------------------------------------------------------------ reset VALUES (round 6)
+   not only IS every member written on a reset route: in the reviewed pure reset functions (ResetSpec.value_funcs) every
+   whole-member assignment writes the member's INITIAL value -- the value its constructor / in-class initialiser gives it, as
+   extracted from the clang AST of the same tree (gen/ResetFields.inits, .vals; re-proved whenever the tree changes) -- unless the
+   assignment is a reviewed exception *)
+Theorem C16_reset_value_is_initial_value :
+  forall v, In v vals -> In (v_func v) value_funcs -> excepted v = false ->
+    exists i, In (mk_init (v_class v) (v_field v) i) inits /\
+              (i = v_val v \/ (i = CLit "{}" /\ (v_val v = CLit "0" \/ v_val v = CLit "nullptr"))).
+Proof.
+  intros v Hin Hf Hx. destruct (check_values_sound inits vals reset_values_ok v Hin Hf Hx) as [i [Hi [_ Hs]]].
+  exists i. split; [exact Hi | apply same_value_spec; exact Hs].
+Qed.
+Print Assumptions C16_reset_value_is_initial_value.
+
+(* the reviewed exceptions are real (each names an extracted assignment of a listed function that does NOT write the initial
+   value, so a stale exception is noticed), and every listed function still exists with at least one assignment *)
+Theorem C16_reset_value_lists_are_live :
+  (forall x, In x value_exceptions ->
+     In (x_func x) value_funcs /\
+     exists v, In v vals /\ v_func v = x_func x /\ v_class v = x_class x /\ v_field v = x_field x /\ initial_value_written inits v = false) /\
+  (forall f, In f value_funcs -> exists v, In v vals /\ v_func v = f).
+Proof. split; [exact (value_exceptions_real inits vals reset_values_ok) | exact (value_funcs_present inits vals reset_values_ok)]. Qed.
+Print Assumptions C16_reset_value_lists_are_live.
+
+(* the checker's verdicts are exact: `same_value` is syntactic identity (or `{}` against 0 / nullptr), and an empty report of the
+   check means every assignment passed *)
+Theorem C16_reset_value_checker_exact :
+  (forall i v, same_value i v = true <-> i = v \/ (i = CLit "{}" /\ (v = CLit "0" \/ v = CLit "nullptr"))) /\
+  (forall is vs, bad_values is vs = [] -> forallb (val_ok is) vs = true).
+Proof. split; [exact same_value_spec | exact bad_values_complete]. Qed.
+Print Assumptions C16_reset_value_checker_exact.
+
+(* non-vacuity: a member whose initial value is NOT zero (BaseEmitter::_forced_inst_options = InstOptions::kReserved) is reset to
+   exactly that value by BaseEmitter::on_detach; resetting it to kNone instead is refused by the checker *)
+Example C16_forced_inst_options_reset_to_kReserved :
+  filter (fun v => String.eqb (v_func v) "BaseEmitter::on_detach" && String.eqb (v_field v) "_forced_inst_options") vals
+    = [mk_val "BaseEmitter::on_detach" "BaseEmitter" "_forced_inst_options" (CName "kReserved")] /\
+  lookup_init inits "BaseEmitter" "_forced_inst_options" = Some (CName "kReserved") /\
+  mem "BaseEmitter::on_detach" value_funcs = true.
+Proof. vm_compute. repeat split. Qed.
+Example C16_wrong_reset_value_refused :
+  check_values inits (mk_val "BaseEmitter::on_detach" "BaseEmitter" "_forced_inst_options" (CName "kNone") :: vals) = false.
+Proof. vm_compute. reflexivity. Qed.
+
+(* set-up ... tear-down (BaseRAPass::run_on_function): the coverage obligation is met by the set-up assignment alone; here the LAST
+   assignment (source order, gen/ResetFields.val_seq) of every member the function assigns writes the member's initial value, and
+   the function contains an unconditional assignment of that member on `this` (not in a branch / loop / after an early exit) *)
+Theorem C16_teardown_restores_initial_value :
+  forall v, In v val_seq -> In (v_func v) teardown_funcs ->
+    exists i l, In (mk_init (v_class v) (v_field v) i) inits /\
+      last_val val_seq (v_func v) (v_class v) (v_field v) None = Some l /\
+      (i = l \/ (i = CLit "{}" /\ (l = CLit "0" \/ l = CLit "nullptr"))) /\
+      (exists w, In w (writes_of funcs (v_func v)) /\ w_class w = v_class v /\ w_field w = v_field v /\ w_sub w = "" /\
+                 w_how w = "assign" /\ w_obj w = "this" /\ w_guard w = []).
+Proof.
+  intros v Hin Hf. destruct (check_teardown_sound inits val_seq funcs teardown_ok v Hin Hf) as [i [l [Hi [Hl [Hs Hu]]]]].
+  exists i, l. split; [apply lookup_init_in; exact Hi|]. split; [exact Hl|]. split; [apply same_value_spec; exact Hs|].
+  apply unconditional_assign_spec. exact Hu.
+Qed.
+Print Assumptions C16_teardown_restores_initial_value.
+
+(* `last_val` is what its name says: the value of the last matching assignment of the sequence (unbounded, any sequence) *)
+Theorem C16_last_val_is_last :
+  forall vs fn c f e, last_val vs fn c f None = Some e ->
+    exists vs1 v vs2, vs = (vs1 ++ v :: vs2)%list /\ val_matches fn c f v = true /\ v_val v = e /\
+                      forallb (fun w => negb (val_matches fn c f w)) vs2 = true.
+Proof. exact last_val_is_last. Qed.
+Print Assumptions C16_last_val_is_last.
+
+(* non-vacuity: run_on_function sets _func to its argument first and to nullptr last; dropping the tear-down assignments is refused *)
+Example C16_run_on_function_puts_func_back :
+  filter (fun v => String.eqb (v_func v) "BaseRAPass::run_on_function" && String.eqb (v_field v) "_func") val_seq
+    = [mk_val "BaseRAPass::run_on_function" "BaseRAPass" "_func" (CName "func");
+       mk_val "BaseRAPass::run_on_function" "BaseRAPass" "_func" (CLit "nullptr")] /\
+  last_val val_seq "BaseRAPass::run_on_function" "BaseRAPass" "_func" None = Some (CLit "nullptr") /\
+  (exists v, In v val_seq /\ v_func v = "BaseRAPass::run_on_function").
+Proof. split; [vm_compute; reflexivity|]. split; [vm_compute; reflexivity|]. exact (teardown_funcs_present inits val_seq funcs teardown_ok _ (or_introl eq_refl)). Qed.
+Example C16_missing_teardown_refused :
+  check_teardown inits (val_seq ++ [mk_val "BaseRAPass::run_on_function" "BaseRAPass" "_func" (CName "func")])%list funcs = false.
+Proof. vm_compute. reflexivity. Qed.
+
+(* a small execution model gives the two value obligations their meaning: a store maps (class, member) to the expression last
+   assigned; a function's whole-member assignments run in the given order. `last_val` IS the final store content (any sequence, any
+   starting store) *)
+Theorem C16_exec_last_assignment_wins :
+  forall vs fn s c f, exec_fn fn vs s c f = last_val vs fn c f (s c f).
+Proof. exact exec_fn_last. Qed.
+Print Assumptions C16_exec_last_assignment_wins.
+
+(* pure reset functions, PATH-INDEPENDENT: whichever of the extracted assignments of a listed function execute, in whatever order
+   and however often (any sequence drawn from gen/ResetFields.vals), a member the function wrote holds its initial value afterwards *)
+Theorem C16_reset_function_leaves_initial_values :
+  forall fn, In fn value_funcs ->
+  forall path, incl path vals -> (forall v, In v path -> v_func v = fn -> excepted v = false) ->
+  forall s c f l, exec_fn fn path s c f = Some l ->
+    s c f = Some l \/ exists i, lookup_init inits c f = Some i /\ same_value i l = true.
+Proof. exact (reset_fn_final_store inits vals reset_values_ok). Qed.
+Print Assumptions C16_reset_function_leaves_initial_values.
+
+(* set-up / tear-down: executing run_on_function's assignments in source order from ANY store leaves every member it assigns at its
+   initial value *)
+Theorem C16_teardown_final_store :
+  forall v, In v val_seq -> In (v_func v) teardown_funcs ->
+  forall s, exists i l, lookup_init inits (v_class v) (v_field v) = Some i /\
+                        exec_fn (v_func v) val_seq s (v_class v) (v_field v) = Some l /\ same_value i l = true.
+Proof. exact (teardown_final_store inits val_seq funcs teardown_ok). Qed.
+Print Assumptions C16_teardown_final_store.
+
+(* non-vacuity: whatever _func held before, after run_on_function's assignments it is nullptr; and an on_detach path that executes
+   only some of the assignments still leaves what it wrote initial *)
+Example C16_func_is_null_after_run_on_function :
+  forall s, exec_fn "BaseRAPass::run_on_function" val_seq s "BaseRAPass" "_func" = Some (CLit "nullptr").
+Proof. intros s. rewrite exec_fn_last, last_val_acc. vm_compute. reflexivity. Qed.
+Example C16_partial_on_detach_path :
+  exec_fn "BaseEmitter::on_detach"
+    [mk_val "BaseEmitter::on_detach" "BaseEmitter" "_forced_inst_options" (CName "kReserved");
+     mk_val "BaseEmitter::on_detach" "BaseEmitter" "_inst_options" (CName "kNone")] (fun _ _ => Some (CName "stale"))
+    "BaseEmitter" "_forced_inst_options" = lookup_init inits "BaseEmitter" "_forced_inst_options".
+Proof. vm_compute. reflexivity. Qed.
+
+(* frame conditions of the execution model: members no executed assignment names, and assignments of other functions, leave the
+   store alone *)
+Theorem C16_exec_frame :
+  (forall vs fn s c f, forallb (fun v => negb (val_matches fn c f v)) vs = true -> exec_fn fn vs s c f = s c f) /\
+  (forall vs fn s c f, forallb (fun v => negb (String.eqb (v_func v) fn)) vs = true -> exec_fn fn vs s c f = s c f).
+Proof. split; [exact exec_fn_frame | exact exec_fn_other_functions]. Qed.
+Print Assumptions C16_exec_frame.
+
+(* the reports the check prints are exact in both directions: an assignment is listed iff it fails its obligation *)
+Theorem C16_value_reports_exact :
+  (forall is vs fn c f, In (fn, c, f) (bad_values is vs) <->
+     exists v, In v vs /\ val_ok is v = false /\ v_func v = fn /\ v_class v = c /\ v_field v = f) /\
+  (forall is seq fs fn c f, In (fn, c, f) (bad_teardown is seq fs) <->
+     exists v, In v seq /\ teardown_val_ok is seq fs v = false /\ v_func v = fn /\ v_class v = c /\ v_field v = f).
+Proof. split; [exact bad_values_exact | exact bad_teardown_exact]. Qed.
+Print Assumptions C16_value_reports_exact.
+
+Example C16_exec_frame_example :
+  forall s, exec_fn "BaseRAPass::run_on_function" val_seq s "BaseRAPass" "_logger" = s "BaseRAPass" "_logger".
+Proof. intros s. apply exec_fn_frame. vm_compute. reflexivity. Qed.
+
+(* the coverage obligation's idiom `assign` is no longer a reviewed idiom inside the pure reset functions: every whole-member
+   assign-write the coverage checker sees there has a value row (the two extractions agree, re-checked per run), and that value is
+   the member's initial value (or the row is a reviewed exception) *)
+Theorem C16_assign_idiom_writes_initial_value :
+  forall fn w, In fn value_funcs -> In w (writes_of funcs fn) -> w_how w = "assign" -> w_sub w = "" ->
+  exists v, In v vals /\ v_func v = fn /\ v_class v = w_class w /\ v_field v = w_field w /\
+            (excepted v = true \/ exists i, lookup_init inits (w_class w) (w_field w) = Some i /\ same_value i (v_val v) = true).
+Proof. exact (assign_write_has_initial_value inits funcs vals assign_writes_have_values_ok reset_values_ok). Qed.
+Print Assumptions C16_assign_idiom_writes_initial_value.
+
+(* functions that reset ONE OF THEIR ARGUMENTS (CodeHolder::detach: the emitter being detached): every assignment made on that
+   object writes the member's initial value; the assignments on its list neighbours and on the holder are working values and are
+   told apart by the object the member is selected from (gen/ResetFields.vals_on) *)
+Theorem C16_detached_object_gets_initial_values :
+  (forall o v, In (o, v) vals_on -> In (v_func v, o) value_obj_funcs ->
+     exists i, lookup_init inits (v_class v) (v_field v) = Some i /\ same_value i (v_val v) = true) /\
+  (forall fn o, In (fn, o) value_obj_funcs -> exists v, In (o, v) vals_on /\ v_func v = fn).
+Proof.
+  split; [exact (check_object_values_sound inits vals_on reset_object_values_ok)
+         | exact (value_obj_funcs_present inits vals_on reset_object_values_ok)].
+Qed.
+Print Assumptions C16_detached_object_gets_initial_values.
+
+Example C16_detach_clears_the_emitter_links :
+  map (fun ov => (v_field (snd ov), v_val (snd ov)))
+      (filter (fun ov => String.eqb (fst ov) "param:emitter" && String.eqb (v_func (snd ov)) "CodeHolder::detach") vals_on)
+  = [("_attached_next", CLit "nullptr"); ("_attached_prev", CLit "nullptr"); ("_code", CLit "nullptr")].
+Proof. vm_compute. reflexivity. Qed.
+Example C16_detach_leaving_a_link_refused :
+  check_object_values inits (("param:emitter", mk_val "CodeHolder::detach" "BaseEmitter" "_attached_next" (CName "next")) :: vals_on) = false.
+Proof. vm_compute. reflexivity. Qed.
+
 (* generic connection to the lifecycle model: if every member an observation reads is reset (the others being persistent),
    the recycled object is observationally the fresh one *)
 Theorem C16_reset_all_fields_is_init :
@@ -312,6 +486,66 @@ Theorem C16_every_program_of_a_series_is_fresh :
 Proof. exact BL.every_program_of_a_series_is_fresh. Qed.
 Print Assumptions C16_every_program_of_a_series_is_fresh.
 
+(* ------------------------------------------------------------------ round 6: hypotheses discharged *)
+(* C08's command type is final: `supported` holds for every command, so the Builder theorems hold for ALL command sequences *)
+Theorem C16_supported_all : forall c, BD.supported c = true.
+Proof. exact BD.supported_all. Qed.
+Print Assumptions C16_supported_all.
+
+Theorem C16_recycled_builder_equals_fresh_all :
+  forall rs d cs,
+    BD.strip (BM.run (BD.recycled_state rs d) cs) = BD.strip (BM.run (BM.init_state rs) cs) /\
+    BD.run_errors (BD.recycled_state rs d) cs = BD.run_errors (BM.init_state rs) cs.
+Proof. exact BD.recycled_builder_equals_fresh_all. Qed.
+Print Assumptions C16_recycled_builder_equals_fresh_all.
+
+Theorem C16_builder_history_irrelevant_all :
+  forall h rs cs b0,
+    BD.strip (BM.run (fold_left BD.do_bl (h ++ [BD.BReset rs]) b0) cs) = BD.strip (BM.run (BM.init_state rs) cs) /\
+    BD.run_errors (fold_left BD.do_bl (h ++ [BD.BReset rs]) b0) cs = BD.run_errors (BM.init_state rs) cs.
+Proof. exact BD.builder_history_irrelevant_all. Qed.
+Print Assumptions C16_builder_history_irrelevant_all.
+
+Theorem C16_dirty_flag_harmless_all :
+  forall cs b1 b2, BuilderLinks.links_ok b1 -> BuilderLinks.links_ok b2 -> BD.same b1 b2 ->
+    BD.same (BM.run b1 cs) (BM.run b2 cs) /\ BD.run_errors b1 cs = BD.run_errors b2 cs.
+Proof. exact BD.dirty_flag_harmless_all. Qed.
+Print Assumptions C16_dirty_flag_harmless_all.
+
+Theorem C16_builder_history_serializes_like_fresh_all :
+  forall h rs cs b0,
+    BM.trace (BM.replay (BM.run (fold_left BD.do_bl (h ++ [BD.BReset rs]) b0) cs)) = BM.trace (BM.replay (BM.run (BM.init_state rs) cs)).
+Proof. exact BL.history_serializes_like_fresh_all. Qed.
+Print Assumptions C16_builder_history_serializes_like_fresh_all.
+
+Theorem C16_reattach_history_irrelevant_all :
+  forall h cs b0, let b := fold_left BL.do_bl2 h b0 in
+    BD.same (BM.run (BL.do_bl2 b BL.B2Reattach) cs) (BM.run (BL.fresh_on_holder (BM.regsize b) (BM.nlabels b) (BM.nsections b)) cs) /\
+    BD.run_errors (BL.do_bl2 b BL.B2Reattach) cs = BD.run_errors (BL.fresh_on_holder (BM.regsize b) (BM.nlabels b) (BM.nsections b)) cs.
+Proof. exact BL.reattach_history_irrelevant_all. Qed.
+Print Assumptions C16_reattach_history_irrelevant_all.
+
+Theorem C16_every_program_of_a_series_is_fresh_all :
+  forall ps b, BL.series b ps = map (fun p => BM.trace (BM.replay (BM.run (BM.init_state (fst p)) (snd p)))) ps.
+Proof. exact BL.every_program_of_a_series_is_fresh_all. Qed.
+Print Assumptions C16_every_program_of_a_series_is_fresh_all.
+
+(* C08's grouping theorem for recycled builders; its acceptance hypothesis can be stated on either builder: a recycled builder
+   accepts a stream iff a fresh one does *)
+Theorem C16_recycled_replay_is_grouping_all :
+  forall rs d cs, Forall BuilderGrouping.emitter cs -> BM.all_ok (BM.init_state rs) cs = true ->
+    let b := BM.run (BD.recycled_state rs d) cs in
+    (forall s, BM.project s (BM.trace (BM.replay b)) = BM.project s (BM.trace cs)) /\
+    (forall x, In x (BM.sec_seq (BM.active b)) <-> x = 0%Z \/ In (BM.ESection x) (BM.trace cs)) /\
+    NoDup (BM.sec_seq (BM.active b)).
+Proof. exact BL.recycled_replay_is_grouping_all. Qed.
+Print Assumptions C16_recycled_replay_is_grouping_all.
+
+Theorem C16_all_ok_recycled_iff_fresh :
+  forall rs d cs, BM.all_ok (BD.recycled_state rs d) cs = BM.all_ok (BM.init_state rs) cs.
+Proof. exact BL.all_ok_recycled_iff_fresh. Qed.
+Print Assumptions C16_all_ok_recycled_iff_fresh.
+
 (* more generally: any two builders that agree up to the link cache and whose caches are valid-or-dirty (an invariant of every run,
    BuilderLinks.links_ok_run) stay so and report the same errors *)
 Theorem C16_dirty_flag_harmless :
@@ -415,6 +649,30 @@ Theorem C16_trace_compositional :
   (forall h1 h2 s, trace (h1 ++ h2) s = (trace h1 s ++ trace h2 (run h1 s))%list) /\ (forall h s, length (trace h s) = length h).
 Proof. split; [exact trace_app | exact trace_length]. Qed.
 Print Assumptions C16_trace_compositional.
+
+(* `ready` discharged: from the start, ANY script that ends in a reset-like step leads to the fresh core -- no side condition *)
+Theorem C16_fresh_equiv_from_start :
+  forall h r, reset_like r = true -> s_core (run (h ++ [r]) state0) = core0.
+Proof. exact fresh_equiv_from_start. Qed.
+Print Assumptions C16_fresh_equiv_from_start.
+
+Theorem C16_any_step_after_reset_from_start :
+  forall h r n x, reset_like r = true -> forallb neutral n = true ->
+    s_core (do_step x (run (h ++ r :: n) state0)) = s_core (do_step x state0).
+Proof. exact any_step_after_reset_from_start. Qed.
+Print Assumptions C16_any_step_after_reset_from_start.
+
+(* ... and in every reachable state; reachable states are ready and logger-consistent *)
+Theorem C16_reachable_states :
+  forall s, reachable s ->
+    ready s = true /\ logger_consistent s /\
+    (forall h r, reset_like r = true -> s_core (run (h ++ [r]) s) = core0) /\
+    (forall h, reachable (run h s)).
+Proof.
+  intros s Hs. split; [apply reachable_ready; exact Hs|]. split; [apply logger_consistent_reachable; exact Hs|].
+  split; [intros h r Hr; apply fresh_equiv_reachable; assumption | intros h; apply reachable_run; exact Hs].
+Qed.
+Print Assumptions C16_reachable_states.
 
 (* the hypotheses above are satisfiable *)
 Example C16_ready_state0 : ready state0 = true.
